@@ -417,7 +417,8 @@ fn main() {
     for len in 0..=l {
         let d = pattern_bytes(len);
         for entry in [Entry::File, Entry::Patch] {
-            jobs.push(Job { data: d.clone(), entry, bound: 2, compositions: len <= run.pick(8, 10) });
+            let bound = if run.thorough() && len <= 64 { 3 } else { 2 };
+            jobs.push(Job { data: d.clone(), entry, bound, compositions: len <= run.pick(8, 10) });
         }
     }
     for len in [8191usize, 8192, 8193, 16385, 70000] {
@@ -434,7 +435,7 @@ fn main() {
         jobs.push(Job { data: d.clone(), entry: Entry::Patch, bound: if d.len() > 1000 { run.pick(1, 2) } else { 2 }, compositions: small });
         jobs.push(Job { data: d.clone(), entry: Entry::File, bound: if d.len() > 1000 { 0 } else { 1 }, compositions: false });
     }
-    run.bound(format!("{} (input, entry point) jobs x 6 algorithms: lengths 0..={} and KiB boundaries, {} patch inputs; deviation bound 2 (1 for multi-KiB inputs in the quick tier); all compositions for inputs <= {} bytes", jobs.len(), l, pi.len(), run.pick(8, 10)));
+    run.bound(format!("{} (input, entry point) jobs x 6 algorithms: lengths 0..={} and KiB boundaries, {} patch inputs; deviation bound 2 (3 for inputs <= 64 bytes in the thorough tier, 1 for multi-KiB inputs in the quick tier); all compositions for inputs <= {} bytes", jobs.len(), l, pi.len(), run.pick(8, 10)));
     par_items(&run, "C13 schedules", &jobs, |i, job, t| {
         for a in mdigest::ALGOS {
             let want = want_hash(&job.data, a, job.entry);
